@@ -34,7 +34,10 @@ A_OUTSIDE = ["[C]", "[=N]", "[Branch1]", "[Ring1]", "[Branch4]", "[Ring0]", "[--
              "[CH5]", "[CH10]", "[C@@@]", "[eps]", "[Epsilon]", "[C-01]"]
 A_BIG = ["[C]", "[=C]", "[N]", "[=O]", "[Branch1]", "[Ring1]", "[#Branch1]", "[=Ring2]"]
 
-ALPHABETS = {"core": A_CORE, "stereo": A_STEREO, "state": A_STATE, "outside": A_OUTSIDE, "deep": A_BIG}
+# rings competing for the same valences from both directions (a ring queued inside a branch targets the branch's parent,
+# which then closes its own ring): the shortest strings where clipping at *both* ends matters have 8 symbols
+A_CONT = ["[C]", "[=C]", "[Branch1]", "[Ring1]", "[=Ring1]", "[#Ring1]"]
+ALPHABETS = {"contention": A_CONT, "core": A_CORE, "stereo": A_STEREO, "state": A_STATE, "outside": A_OUTSIDE, "deep": A_BIG}
 
 INDEX_HEADS = ["[Ring1]", "[Ring2]", "[Ring3]", "[Branch1]", "[=Branch2]", "[#Branch3]"]
 INDEX_DIGITS = misc.INDEX + ["[F]", "[nop]"]
@@ -49,14 +52,14 @@ def plan(tier, seed):
         grid += [("stereo", "default", 6), ("stereo", "big", 5)]
         grid += [("state", "default", 5), ("state", "hypervalent", 4), ("state", "mix", 4), ("state", "octet_rule", 4)]
         grid += [("outside", "default", 5), ("outside", "zero", 4)]
-        grid += [("deep", "default", 8), ("deep", "big", 7)]
+        grid += [("deep", "default", 8), ("deep", "big", 7), ("contention", "default", 9), ("contention", "hypervalent", 8)]
     else:
         grid += [("core", "default", 6)]
         grid += [("core", t, 5) for t in tables.ALL if t != "default"]
         grid += [("stereo", "default", 5)]
         grid += [("state", "default", 4), ("state", "mix", 3)]
         grid += [("outside", "default", 4)]
-        grid += [("deep", "default", 7)]
+        grid += [("deep", "default", 7), ("contention", "default", 8)]
     # rotating extra scope chosen by the seed (reported; the core scopes above never depend on the seed)
     extras = [("stereo", "mix", 4), ("state", "big", 3), ("outside", "octet_rule", 3), ("deep", "hypervalent", 6),
               ("core", "big", 5)]
